@@ -1001,6 +1001,32 @@ pub fn hostile_inputs(r: &mut Rng, big: usize) -> Vec<(Vec<u8>, bool)> {
             }
         }
     }
+    // results whose own serialisation is longer than the bytes they came from (a string argument without terminator gains one
+    // when written), at the 16-bit limit of the length field and at the 8- / 15-bit ones: measuring and writing them must not panic
+    {
+        let be = r.coin();
+        let w16 = |x: u16| if be { x.to_be_bytes() } else { x.to_le_bytes() };
+        let w32 = |x: u32| if be { x.to_be_bytes() } else { x.to_le_bytes() };
+        for total in [65535usize, 65534, 65533, 65521, 32768, 32767, 256, 255] {
+            let opt = *r.pick(&[0u8, 4, 8, 16, 12, 28]);
+            let htyp = 0x21 | if be { 2 } else { 0 } | opt;
+            let hdrs = 4 + 4 * ((opt >> 2 & 1) + (opt >> 3 & 1) + (opt >> 4 & 1)) as usize + 10;
+            let nargs = 1 + r.below(3) as usize;
+            let room = total - hdrs - 6 * nargs;
+            let mut x = vec![htyp, 9, (total >> 8) as u8, total as u8];
+            x.extend(r.bytes(hdrs - 14));
+            x.extend([0x41u8, nargs as u8, b'A', b'P', b'P', 0, b'C', b'T', b'X', 0]);
+            let mut left = room;
+            for k in 0..nargs {
+                let n = if k + 1 == nargs { left } else { r.below(left as u64 + 1) as usize };
+                left -= n;
+                x.extend(w32(if r.coin() { 0x0000_8200 } else { 0x0000_0200 }));
+                x.extend(w16(n as u16));
+                x.extend(std::iter::repeat(b'q').take(n));
+            }
+            if r.coin() { let mut y = b"DLT\x01".to_vec(); y.extend(r.bytes(8)); y.extend(b"ECU1"); y.extend(&x); v.push((y, true)); } else { v.push((x, false)); }
+        }
+    }
     // random mutants, wrong storage mode, all-0xFF, zeros, very long
     for _ in 0..4 { v.push((gen::mutate(r, &b, sh), sh)); }
     v.push((b.clone(), !sh));
